@@ -88,10 +88,10 @@ theorem fc_ratelimit_returns_src : fc_ratelimit_returns = fcRatelimitReturnsExpe
 
 /-! ## Round 4: the front of the middleware and the production wiring -/
 
-/-- `Wrap`: a request stopped by the device result and a request with a malformed ECS option are
+/-- `Wrap` (three silent exits since the C10 repair: spoofed port, globally blocked, blocked by the profile): a request stopped by the device result and a request with a malformed ECS option are
 finished by `serveDeviceErr` / `serveLocationErr`; everything else goes to `serveWithRatelimiting`. -/
 def wrapReturnsExpected : String :=
-  "nil | nil | mw.serveDeviceErr(ctx, rw, req, ri, err) | mw.serveLocationErr(ctx, rw, req, ri, locErr) | mw.serveWithRatelimiting(ctx, rw, req, ri, next) | dnsserver.HandlerFunc(f)"
+  "nil | nil | nil | mw.serveDeviceErr(ctx, rw, req, ri, err) | mw.serveLocationErr(ctx, rw, req, ri, locErr) | mw.serveWithRatelimiting(ctx, rw, req, ri, next) | dnsserver.HandlerFunc(f)"
 set_option maxRecDepth 16384 in
 theorem wrap_returns_src : wrap_returns = wrapReturnsExpected := by decide
 /-- `serveDeviceErr`: no error ⇒ dropped; otherwise the error is what the `next` handler returns, and
@@ -115,5 +115,13 @@ theorem builder_profile_resp_size_src :
 including that of the initial refresh, stops the start-up. -/
 theorem builder_allowlist_type_cond_src : builder_allowlist_type_cond =
     "err != nil | typ == rlAllowlistTypeBackend | err != nil | err != nil | err != nil" := by decide
+
+/-- `cmd` (round 5): the limiter that `builder.initRateLimiter` has built (`b.rateLimit`, with the
+configured allowlist and its updater) is the one `builder.initDNS` hands to `dnssvc.NewHandlers` — not a
+second limiter built from the same section. -/
+def builderHandlersConfExpected : String :=
+  "&dnssvc.HandlersConfig{ BaseLogger: b.baseLogger, Cache: b.conf.Cache.toInternal(), Cloner: b.cloner, HumanIDParser: agd.NewHumanIDParser(), Messages: b.messages, PluginRegistry: b.plugins, StructuredErrors: b.sdeConf, AccessManager: b.access, BillStat: b.billStat, CacheManager: b.cacheManager, DNSCheck: b.dnsCheck, DNSDB: b.dnsDB, ErrColl: b.errColl, FilterStorage: b.filterStorage, GeoIP: b.geoIP, Handler: b.fwdHandler, HashMatcher: b.hashMatcher, ProfileDB: b.profileDB, PrometheusRegisterer: b.promRegisterer, QueryLog: b.queryLog(), RateLimit: b.rateLimit, RuleStat: b.ruleStat, MetricsNamespace: b.mtrcNamespace, FilteringGroups: b.filteringGroups, ServerGroups: b.serverGroups, EDEEnabled: b.conf.Filters.EDEEnabled, }"
+set_option maxRecDepth 32768 in
+theorem builder_handlers_conf_src : builder_handlers_conf = builderHandlersConfExpected := by decide
 
 end Agd.Tie.C09
